@@ -336,7 +336,15 @@ def enumerate_jobs(tier, seed):
 
     # -- feature compilation
     feas = [os.path.relpath(p, TESTS) for p in corpus.fea_files()]
-    for rel in _pick(feas, len(feas) if thorough else 56, rnd):
+    # always present: the few feature files that touch the environment (non-ASCII text -> locale
+    # encoding; include statements -> path resolution / cwd)
+    env_sensitive = []
+    for rel in feas:
+        with open(tpath(rel), "rb") as fh:
+            b = fh.read()
+        if b"include(" in b or any(c > 127 for c in b):
+            env_sensitive.append(rel)
+    for rel in _pick(feas, len(feas) if thorough else 56, rnd, must=env_sensitive):
         J.append(dict(pipe="fea", name="fea:" + rel, fea=rel, debug=rnd.random() < 0.15, cost=20000))
 
     # -- subsetting
